@@ -32,7 +32,6 @@ import (
 
 const builtWithOverlay = true
 
-
 // Names: with the overlay's reset helper every execution uses the same names and they are removed again
 // afterwards (every execution starts with them absent).  Without it nothing can be removed from the
 // process-global registry; the names are then fixed and normalised (registered with decoration d3) before every
